@@ -63,3 +63,19 @@ Theorem C19_reservation_expiry : forall s dt s' acts r,
   h_tick s dt = (s', acts) -> (In r (rsvs s') <-> In r (rsvs s) /\ now s + Z.max 0 dt < r_dl r).
 Proof. exact reservation_expiry. Qed.
 Print Assumptions C19_reservation_expiry.
+
+(* ---------- history level ---------- *)
+From Turn Require Import Common RelayCheck RelayProps RelayTrace.
+(* the predicate evaluated on the implementation's observed traces (chk_C19, including "no other live allocation has the
+   relayed address" and "a retransmission gets exactly the attributes of the original success") holds on every trace of
+   the model in which the relay address generator never hands out a port that a live allocation holds (env_ok: the
+   environment's part of the bargain, C20 for the bundled generators) *)
+Theorem C19_predicate_holds_on_every_model_trace : forall cfg ep h, env_ok cfg (init ep) h -> chk_C19 (model_case cfg ep h) = true.
+Proof. exact chk_C19_model. Qed.
+Print Assumptions C19_predicate_holds_on_every_model_trace.
+
+(* every error answer - 437 included - means the request changed nothing and the error is all that happened *)
+Theorem C19_error_changes_nothing : forall cfg s src tid c r unk s' acts d m t code ch,
+  step cfg s (EReq src tid c r unk) = (s', acts) -> In (Error d m t code ch) acts -> s' = s /\ acts = [Error d m t code ch].
+Proof. exact error_means_unchanged. Qed.
+Print Assumptions C19_error_changes_nothing.
